@@ -381,6 +381,7 @@ def run_evolver(alias='default', trace=None, hinted=False, purge=False):
     with tr.recording():
         try:
             ev = Evolver(database_name=alias, hinted=hinted)
+            tr.evolver = ev
             ev.queue_evolve_all_apps()
             if purge:
                 ev.queue_purge_old_apps()
